@@ -8,7 +8,7 @@ import gen_cube as G
 
 ID = "C02"
 LEAN_MODULES = ["CatiiProps.C02"]
-RULE = ("exhaustive: every list of 0..3 one-axis dims over N<=3 rows, values<2, every common; random: 0..4 dims, N<=40, "
+RULE = ("a 5- / 7-column dimension declaring 2^28 rows (the cube engages its own thread pool), block by block against set arithmetic; " "exhaustive: every list of 0..3 one-axis dims over N<=3 rows, values<2, every common; random: 0..4 dims, N<=40, "
         "extents 1..5, one/two/three-axis dims, commons frequent/rare/absent, explicit shapes padded beyond the data, "
         "extents at 255/256/257 and 65535/65536/65537 (<=2 dims). Observed on the real code: interactions, regions after "
         "fill, after marginal differencing, count() in NaN and (0, False) formats; multi-axis cubes are counted again after one of their dimensions was updated in place. Non-trivial = at least one row and one "
@@ -132,6 +132,95 @@ def check(ctx, case, reqs, pend, shape=None):
                  [int(x) for x in got.reshape(-1).tolist()], ishape))
 
 
+def _expected_by_sets(dims, shape, N):
+    """dims: [(entries {(v,): rows}, common, extent)] one-axis; expected contingency table by set arithmetic"""
+    import itertools
+
+    def rows_of(d, v):
+        return set(int(x) for x in d[0].get((v,), np.array([], dtype=np.uint32)).tolist())
+    exp = np.zeros(shape, dtype=object)
+    for cell in itertools.product(*[range(e) for e in shape]):
+        listed_axes = [a for a, v in enumerate(cell) if v != dims[a][1]]
+        common_axes = [a for a, v in enumerate(cell) if v == dims[a][1]]
+        listed_any = {a: set().union(*[rows_of(dims[a], v) for v in range(shape[a]) if v != dims[a][1]]) if shape[a] > 1 else set()
+                      for a in common_axes}
+        if listed_axes:
+            base = set.intersection(*[rows_of(dims[a], cell[a]) for a in listed_axes])
+            for a in common_axes:
+                base = base - listed_any[a]
+            exp[cell] = len(base)
+        else:
+            exp[cell] = N - len(set().union(*listed_any.values())) if listed_any else N
+    return exp
+
+
+def big_scaffold(ctx):
+    """one dimension with 5 / 6 / 7 / 9 columns declaring 2^28 rows (a handful listed), alone or crossed with a sparse
+    one-axis dimension: the index cube switches to its thread pool by itself at this size (scaffold > 2 and rows x
+    scaffold >= 2^30) and deals the sub-cubes to 4 workers; every block must still be the brute-force table of its column"""
+    from catii import ccube, iindex
+    import pool_common as P
+    for cols in ((5, 7) if ctx.scale == 1 else (5, 6, 7, 9, 10, 13)):
+        N = 2 ** 28
+        extent = ctx.rng.randrange(2, 4)
+        common = ctx.rng.randrange(extent)
+        ent, per_col = {}, []
+        for c in range(cols):
+            used, col_ent = set(), {}
+            for v in range(extent):
+                if v == common:
+                    continue
+                rows = sorted(set(ctx.rng.choice([0, 1, 2, 3, 5, 8, N - 1, N - 2, N // 2]) for _r in range(ctx.rng.randrange(1, 4))) - used)
+                if rows:
+                    used |= set(rows)
+                    ent[(v, c)] = np.array(rows, dtype=np.uint32)
+                    col_ent[(v,)] = ent[(v, c)]
+            per_col.append((col_ent, common, extent))
+        second = None
+        if ctx.rng.random() < 0.5:
+            e2 = ctx.rng.randrange(2, 4)
+            c2 = ctx.rng.randrange(e2)
+            ent2 = {(v,): np.array(sorted(set(ctx.rng.choice([0, 1, 2, 5, N - 1, N // 2]) for _r in range(2))), dtype=np.uint32)
+                    for v in range(e2) if v != c2}
+            seen = set()
+            for k_ in list(ent2):
+                keep = [r for r in ent2[k_].tolist() if r not in seen]
+                seen |= set(keep)
+                if keep:
+                    ent2[k_] = np.array(keep, dtype=np.uint32)
+                else:
+                    del ent2[k_]
+            second = (ent2, c2, e2)
+        idxs = [iindex(ent, common, (N, cols))] + ([iindex(second[0], second[1], (N,))] if second else [])
+        shape = [extent] + ([second[2]] if second else [])
+        desc = {"big_scaffold": cols, "declared_rows": N, "common": common,
+                "entries": {str(k_): v.tolist() for k_, v in ent.items()},
+                "second": None if second is None else {"common": second[1], "entries": {str(k_[0]): v.tolist() for k_, v in second[0].items()}}}
+        ctx.case(desc, nontrivial=True)
+        try:
+            cube = ccube(idxs, interacting_shape=tuple(shape))
+            ctx.hit("big_scaffold:pooled" if cube.parallel else "big_scaffold:serial")
+            got = P.run_with_timeout(lambda: cube.count(return_missing_as=(0, False)), 300)
+            if got[0] != "ok":
+                raise (got[1] if got[0] == "raise" else TimeoutError("count did not return"))
+            vals, valid = got[1]
+        except Exception as e:
+            ctx.oracle_fail("count over a %d-column dimension declaring 2^28 rows raised %s: %s" % (cols, type(e).__name__, str(e)[:80]),
+                            desc, cls="C02-raises")
+            continue
+        for c in range(cols):
+            exp = _expected_by_sets([per_col[c]] + ([second] if second else []), shape, N)
+            ctx.evaluations += 1
+            bad = [cell for cell in np.ndindex(*shape)
+                   if (int(exp[cell]) == 0) != (not bool(valid[(c,) + cell])) or (int(exp[cell]) != 0 and int(vals[(c,) + cell]) != int(exp[cell]))]
+            if bad:
+                cell = bad[0]
+                ctx.oracle_fail("count over a %d-column dimension declaring 2^28 rows (pool engaged: %s): column %d cell %s holds %s "
+                                "(valid=%s), brute force says %s" % (cols, cube.parallel, c, cell, vals[(c,) + cell],
+                                                                     bool(valid[(c,) + cell]), exp[cell]), desc, cls="C02-wrong-count")
+                break
+
+
 def big_rows(ctx, reqs, pend):
     """row counts beyond the exact range of float32 / int32 / uint32 words: sparse dimensions built directly from a few
     entries (no dense array), expected table by set arithmetic"""
@@ -223,6 +312,7 @@ def run(ctx):
             ctx.hit("extent_boundary")
             check(ctx, case, reqs, pend, [big, 3][:k])
     big_rows(ctx, reqs, pend)
+    big_scaffold(ctx)
     if ctx.oracle_only:
         return
     for (desc, filled, diffed, missing, counts, ishape), m in zip(pend, ctx.model.run(reqs)):
